@@ -33,7 +33,10 @@ impl Arena {
         }
     }
     fn ensure(&mut self, bytes: usize) {
-        if !self.base.is_null() && self.payload_len >= bytes.max(1) {
+        // keep the arena unless it is too small - or far too large: after one very long transform every later small call would
+        // pay for mprotect / page-table work over megabytes
+        let oversized = self.payload_len > (1 << 20) && self.payload_len > 32 * bytes.max(PAGE);
+        if !self.base.is_null() && self.payload_len >= bytes.max(1) && !oversized {
             return;
         }
         self.release();
